@@ -115,6 +115,11 @@ class Spec(pipeprops.PropSpec):
         for i in range(n):
             r = random.Random(rnd.getrandbits(48))
             ts = adversarial(r) if i % 2 else pipe.gen_graph(r, general=True)
+            if i % 25 == 7:
+                # a typing statement whose object is a literal (a literal is not a class): valid RDF
+                subj = r.choice([t[0] for t in ts]) if ts and r.random() < 0.7 else ("I", "http://ex.org/zz")
+                ts = list(ts) + [(subj, T, ("L", "lit", pipe.XSD + "string"))]
+                r.shuffle(ts)
             cfg = pipeprops.random_cfg(r, ts, i)
             if r.random() < 0.3:
                 cfg["disable_or_statements"] = False
@@ -204,6 +209,11 @@ class Spec(pipeprops.PropSpec):
                     rc = "rc_shacl_shape_map"
                 if kind == "shexc" and res[1] == "TypeError" and not rn[1]["disable_or_statements"] and rn[1]["remove_empty_shapes"]:
                     rc = "rc_choice_prune"
+                if rc is None and res[1] == "AttributeError" and any(
+                        p == rn[1]["tau"] and o[0] == "L" for (_, p, o) in rn[0]):
+                    # the data: a typing statement with a literal object (the same defect as C10-F6; which runs fail
+                    # is predicted exactly by the model: Props/C01.v E2E_profile_error, Props/C16.v C16_track_err_iff)
+                    rc = "rc_literal_class"
                 fails.append((rc, "%s raises %s at %s" % (kind, res[1], res[2] if len(res) > 2 else "")))
         return fails, len(impl)
 
@@ -253,6 +263,17 @@ def _wrap_for_decor():
 
 
 _wrap_for_decor()
+
+def _profile_text_correspondence():
+    """profile_graph (Props/C04.v: C04_profile_json_total_iff, C04_profile_json_errors): the profile runs of the
+    stream -- and one more on the cases that had none, shape-map cases included -- are compared BYTE FOR BYTE with
+    Model.RunProfile.run_profile_json (string and file sink); every figure of the text is recounted from the triples."""
+    from vp import pipeprofile
+    pipeprofile.attach(Spec, every=2)
+    Spec.theorems += ", C04_profile_json_total_iff, C04_profile_json_errors (Props/C04.v)"
+
+
+_profile_text_correspondence()
 
 
 def run(tier, seed, replay=None):
